@@ -18,6 +18,13 @@ from . import common as cm
 from . import c10_gen as G
 
 REQ = ["Text.FilePos", "Text.FileText", "Text.Split", "Text.Wire"]
+ANCHORS = ["pyflyby._file:FilePos.__add__", "pyflyby._file:FileText.__new__", "pyflyby._file:FileText.endpos",
+           "pyflyby._file:FileText._lineno_to_index", "pyflyby._file:FileText._colno_to_index",
+           "pyflyby._file:FileText.__getitem__", "pyflyby._file:FileText.concatenate",
+           "pyflyby._parse:_is_comment_or_blank", "pyflyby._parse:_split_code_lines",
+           "pyflyby._parse:PythonBlock.statements", "pyflyby._parse:_annotate_ast_startpos",
+           "pyflyby._parse:_char_col_offset", "pyflyby._parse:_iter_child_nodes_in_order_internal_1",
+           "pyflyby._parse:_parse_ast_nodes"]
 MAX_MODEL_CHARS = 6000          # larger corpus files go through the oracle only
 MAX_MODEL_LINES = 400
 
@@ -354,8 +361,10 @@ def compare_one(ctx, c, p, im, mv):
 
 
 def run(ctx):
-    n = 900 if ctx.quick else 12000
-    ncorpus = 160 if ctx.quick else None
+    cm.check_anchors(ctx, ANCHORS)
+    scale = getattr(ctx, "scale", 1)
+    n = (900 if ctx.quick else 12000) * scale
+    ncorpus = 160 * scale if ctx.quick else None
     ctx.coverage["rule"] = ("generated statement soups (70%% at (1,1), 30%% at a shifted start position) + the F1/F3/F32/F33/F35 witnesses + "
                             "a sample (thorough: all) of the stdlib/site-packages .py files; model evaluated in the kernel on every generated "
                             "case and on corpus files up to %d characters, oracle on all; non-trivial = module has at least one statement; "
